@@ -180,6 +180,10 @@ def vector(letter, n):
         return list(L['v1'][:n - 1]) if n >= 1 else [L['v1'][0]]
     if letter == 'toolong':
         return list(L['v1'][:n + 1])
+    if letter.endswith('np'):
+        # the vector as a sampler hands it over: a float64 array
+        import numpy as np
+        return np.array(L[letter[:-2]][:n], dtype=np.float64)
     return list(L[letter][:n])
 
 
@@ -690,7 +694,7 @@ def explore(ctx):
         # parameters, every operation, depth 3
         run_phase(ctx, 'all', alphabet(QUICK_PARAMS, DERIVED, priors=('U', 'LU'), errors='few', updates=('v1',)), 3)
         # two parameters (default-fit linear + log, the pair of the design prototype), depth 4
-        run_phase(ctx, 'pair', alphabet(['planet_radius', 'H2O'], [], errors=None, updates=('v1',)), 4)
+        run_phase(ctx, 'pair', alphabet(['planet_radius', 'H2O'], [], errors=None, updates=('v1', 'v2np')), 4)
         # differently capitalised mode names next to the plain ones
         run_phase(ctx, 'spelling', alphabet(['planet_radius', 'H2O'], [], priors=(), errors=None, updates=('v1',),
                                             spelled=True), 3)
@@ -701,7 +705,7 @@ def explore(ctx):
         # all five parameters, all derived parameters, four prior kinds, every error letter, depth 4
         # (this contains every depth-2 state of the full alphabet as the start of a depth-2 search)
         run_phase(ctx, 'all', alphabet(PARAMS, DERIVED, priors=('U', 'LU', 'G', 'LG'), errors='all'), 4)
-        run_phase(ctx, 'pair', alphabet(['planet_radius', 'H2O'], [], errors=None), 6)
+        run_phase(ctx, 'pair', alphabet(['planet_radius', 'H2O'], [], errors=None, updates=('v1', 'v2', 'v2np')), 6)
         run_phase(ctx, 'spelling', alphabet(['planet_radius', 'H2O', 'obs_scale'], [], priors=('U',), errors=None,
                                             updates=('v1',), spelled=True), 4)
         run_phase(ctx, 'pair-obs', alphabet(['T', 'obs_scale'], ['obs_d'], errors=None, updates=('v1',)), 5)
